@@ -131,7 +131,123 @@ def gen_mesh_case(rng, name):
     return c
 
 
+def gen_mesh_diamond(rng, name):
+    """mesh_ instances with TWO references each (diamonds: D reads B and C, C reads B); links appear and change while the mesh
+    runs, so instances are re-ranked. Oracle (trace only): an instance that reads key a never keeps a's PREVIOUS result in a
+    cycle in which a's instance produced a new one - it is evaluated after a in that cycle and reads the new result."""
+    from .prog import Case, S
+    end = rng.choice([16, 24])
+    c = Case(name, 0, end)
+    n = rng.choice([4, 5, 6])
+    keys = list(range(1, n + 1))
+    vals = {0: [f"[{k}]={k * 10}" for k in keys]}
+    for t in sorted(rng.sample(range(1, end), rng.choice([6, 10, 14]))):
+        for k in rng.sample(keys, rng.choice([1, 1, 2, 3])):
+            vals.setdefault(t, []).append(f"[{k}]={k * 10 + rng.randrange(10)}")
+    links = {}
+    order = list(keys[1:])
+    rng.shuffle(order)
+    t = 0
+    for k in order:                                    # dependencies registered in a shuffled order, some only later
+        a, b = rng.randrange(1, k), rng.randrange(1, k)
+        links.setdefault(t, []).append(f"[{k}]={a * 100 + b}")
+        if rng.random() < 0.5:
+            t += rng.choice([0, 1, 2])
+    for t2 in sorted(rng.sample(range(2, end), rng.choice([2, 4, 6]))):
+        k = rng.choice(keys[1:])
+        links.setdefault(t2, []).append(f"[{k}]={rng.randrange(1, k) * 100 + rng.randrange(1, k)}")
+    c.cscripts[1] = [f"{t}|" + ",".join(dict.fromkeys(ops)) for t, ops in sorted(vals.items())]
+    c.cscripts[2] = [f"{t}|" + ",".join(dict.fromkeys(ops)) for t, ops in sorted(links.items())]
+    c.graphs["fn0"] = [S("e", "pass", "p0", uid=100), S("l", "pass", "p1", uid=103), S("la", "hi100", "l"), S("lb", "lo100", "l"),
+                       S("d1", "meshref", "la"), S("d2", "meshref", "lb"), S("g1", "gate", "e", "d1", uid=105), S("g", "gate", "g1", "d2", uid=106),
+                       S("", "RET", "g")]
+    c.graphs["main"] = [S("d", "csrc", shape="tsd", uid=1), S("k", "csrc", shape="tsd", uid=2), S("m", "mesh", "d", "k", fn="fn2:0"),
+                        S("", "cmirror", "m", uid=11)]
+    c.meta["mesh"] = 2
+    return c
+
+
+def check_mesh_diamond(case, tr, res):
+    run = tr.runs[0]
+    if run.error and "failed_to_settle" in run.error:
+        res.counters = {"mesh_runs_failed_to_settle": 1}
+        return res
+    if run.error:
+        res.violations.append(Violation(f"run failed: {run.error[:300]}"))
+        return res
+    from .gen_coll import write_log
+    wl = write_log(run)
+    outer = {}                    # t -> keys whose own value / link element was written in that cycle
+    for u in (1, 2):
+        for t, ops in wl.get(u, []):
+            for op in ops:
+                if "[" in op:
+                    outer.setdefault(t, set()).add(int(op[op.index("[") + 1:op.index("]")]))
+    known = []
+    link_cycles = {t for t, ops in wl.get(2, [])}
+    relink_cycles = 0
+    key_of, link_of = {}, {}
+    by_t = {}
+    for ue in run.uevals():
+        if ue.uid == 100 and ue.gid not in key_of and ue.out is not None:
+            key_of[ue.gid] = ue.out // 10
+        by_t.setdefault(ue.t, []).append(ue)
+    out = {}                      # key -> latest result
+    checks = stale = 0
+    V = []
+    for t in sorted(by_t):
+        evs = by_t[t]
+        for ue in evs:
+            if ue.uid == 103 and ue.out is not None:
+                link_of[ue.gid] = (ue.out // 100, ue.out % 100)
+        new_out = {}
+        for ue in evs:
+            if ue.uid == 106 and ue.gid in key_of:
+                new_out[key_of[ue.gid]] = ue.out
+        if t in link_cycles:
+            # a cycle in which links change re-ranks instances while they are being evaluated (instances pause and resume, ranks
+            # of already snapshotted dependents move): what such a cycle guarantees is not pinned down - the steady cycles are judged
+            out.update(new_out)
+            relink_cycles += 1
+            continue
+        reads = {}
+        for ue in evs:
+            if ue.uid in (105, 106) and ue.gid in key_of:
+                reads[(ue.gid, ue.uid)] = ue.ins[1]
+        for gid, (a, b) in link_of.items():
+            if gid not in key_of:
+                continue
+            for dep_key, uid in ((a, 105), (b, 106)):
+                if dep_key in new_out and dep_key != key_of[gid]:
+                    checks += 1
+                    r = reads.get((gid, uid))
+                    if r is None or not r[0] or r[3] != new_out[dep_key]:
+                        stale += 1
+                        if dep_key not in outer.get(t, ()):
+                            # known finding F27: the dependency is not due when the pass starts (none of its own inputs ticked); it
+                            # becomes due in the middle of the pass (through a third instance's tick) and is evaluated after a reader
+                            # that was already in the pass's rank snapshot
+                            known.append(f"t={t}: the instance of key {key_of[gid]} was evaluated before (or not after) the instance of "
+                                         f"key {dep_key} it reads, which became due only through another instance's tick in this cycle; the reader "
+                                         f"kept the previous result")
+                            continue
+                        if len(V) < 4:
+                            V.append(f"t={t}: the instance of key {key_of[gid]} reads key {dep_key} (reference #{1 if uid == 105 else 2}); that instance produced "
+                                     f"{new_out[dep_key]} in this cycle but the reader {'was not evaluated after it' if r is None else 'read ' + str(r)}: "
+                                     f"a consumer keeps its producer's previous result")
+        out.update(new_out)
+    for m in V:
+        res.violations.append(Violation(m))
+    if known:
+        res.violations.append(Violation(known[0], "mesh-dependency-due-mid-pass-evaluated-after-its-reader"))
+    res.counters = {"mesh_reference_reads_checked": checks, "mesh_diamond_cases": 1, "mesh_relink_cycles_not_judged": relink_cycles}
+    res.nontrivial = checks >= 5
+    return res
+
+
 def check_mesh(case, tr, res):
+    if case.meta.get("mesh") == 2:
+        return check_mesh_diamond(case, tr, res)
     run = tr.runs[0]
     if run.error and "failed_to_settle" in run.error:
         # the mesh gave up re-ranking its instances after a link change ("failed to settle within the cycle"): an explicit
@@ -188,6 +304,8 @@ def generate(rng, tier, seed):
         cases.append(c)
     for k in range(n // 5):
         cases.append(gen_mesh_case(rng, f"c01_{seed}_m{k}"))
+    for k in range(n // 5):
+        cases.append(gen_mesh_diamond(rng, f"c01_{seed}_md{k}"))
     kinds = ["delayed", "rank", "rank2", "control"]
     for k in range(n // 5):
         cases.append(make_cyclic(rng, f"c01_{seed}_cyc{k}", kinds[k % len(kinds)]))
